@@ -28,13 +28,14 @@ def world():
 
 def job(args):
     global EXTRACT_PATH
-    kind, name, prop, timeout, extra, xpath = args
+    kind, name, prop, timeout, extra, xpath = args[:6]
+    part = args[6] if len(args) > 6 else None
     EXTRACT_PATH = xpath
     from pyvc import verify
     w = world()
     mark = len(w.axioms)
     if kind == "fn":
-        r = verify.verify_function(w, name, prop, timeout, refine_of=extra)
+        r = verify.verify_function(w, name, prop, timeout, refine_of=extra, part=part)
     else:
         r = verify.verify_lemma(w, name, prop, timeout)
     del w.axioms[mark:]
@@ -57,15 +58,57 @@ def plan(prop):
     return jobs
 
 
+def merge_parts(jobs, results):
+    merged, by_name = [], {}
+    for j, r in zip(jobs, results):
+        if len(j) <= 6:
+            merged.append(r)
+            continue
+        key = (j[1], j[4])
+        if key not in by_name:
+            by_name[key] = dict(r)
+            by_name[key]["_obs"] = {}
+            by_name[key]["parts"] = j[6][1]
+            merged.append(by_name[key])
+        m = by_name[key]
+        if r["status"] != "ok" and m["status"] == "ok":
+            m["status"], m["reason"] = r["status"], r["reason"]
+        if r.get("n_generated") != m.get("n_generated") or r.get("ob_ids") != m.get("ob_ids"):
+            m["status"], m["reason"] = "engine_error", "parts generated different obligation lists"
+        m["seconds"] = max(m["seconds"], r["seconds"])
+        for idx, o in zip(r.get("part_index", []), r["obligations"]):
+            m["_obs"][idx] = o
+    for m in merged:
+        if "_obs" in m:
+            obs = m.pop("_obs")
+            m["obligations"] = [obs[i] for i in sorted(obs)]
+            if m["status"] == "ok" and len(obs) != m.get("n_generated"):
+                m["status"], m["reason"] = "engine_error", "missing obligations after merge"
+            m.pop("part_index", None)
+    return merged
+
+
 def run(prop, tier, only=None, serial=False):
     timeout = 30000 if tier == "quick" else 120000
-    jobs = [(k, n, prop, timeout, x, EXTRACT_PATH) for k, n, x in plan(prop) if only is None or only in n]
+    from pyvc import api
+    jobs = []
+    for k, n, x in plan(prop):
+        if only is not None and only not in n:
+            continue
+        split = getattr(api.CONTRACTS.get(x or n), "split", 1) if k == "fn" else 1
+        if split > 1 and not serial:
+            jobs.extend((k, n, prop, timeout, x, EXTRACT_PATH, (r, split)) for r in range(split))
+        else:
+            jobs.append((k, n, prop, timeout, x, EXTRACT_PATH))
     t0 = time.time()
     if serial or len(jobs) <= 1:
         results = [job(j) for j in jobs]
     else:
         with ProcessPoolExecutor(max_workers=min(16, len(jobs)), max_tasks_per_child=1) as ex:
             results = list(ex.map(job, jobs))
+    results = merge_parts(jobs, results)
+    for r in results:
+        r.pop("ob_ids", None)
     out = {"property": prop, "tier": tier, "results": results, "wall_s": round(time.time() - t0, 2),
            "z3": __import__("z3").get_version_string()}
     with open(os.path.join(ROOT, "build", f"{prop}.obligations.json"), "w") as fh:
